@@ -286,6 +286,9 @@ class Compound(Any, tuple, metaclass=abc.ABCMeta):
     def __eq__(self, other):
         return Any.__eq__(self, other) and tuple.__eq__(self, other)
 
+    def __ne__(self, other):
+        return not self == other  # tuple.__ne__ would ignore the kind class
+
     def __hash__(self):
         return Any.__hash__(self) ^ tuple.__hash__(self)
 
@@ -335,6 +338,9 @@ class Struct(Compound):
 
         def __eq__(self, other):
             return other.__class__ == self.__class__ and super().__eq__(other)
+
+        def __ne__(self, other):
+            return not self == other  # tuple.__ne__ would ignore the class
 
         def __hash__(self):
             return hash(self.__class__) ^ super().__hash__()
